@@ -248,11 +248,11 @@ func (cr *c07Runner) round(st c07Step) {
 		d := decideOK
 		switch {
 		case st.Fault == "checkpoint" && c.Kind == OpUpload && c.Key == "checkpoint":
-			d = Decision{Apply: false, Err: errInjected}
+			d = Decision{Apply: false, Err: rotatingInjectedErr()}
 		case st.Fault == "checkpoint-applied" && c.Kind == OpUpload && c.Key == "checkpoint":
-			d = Decision{Apply: true, Err: errInjected}
+			d = Decision{Apply: true, Err: rotatingInjectedErr()}
 		case st.Fault == "staging" && c.Kind == OpUpload && strings.HasPrefix(c.Key, "staging/"):
-			d = Decision{Apply: false, Err: errInjected}
+			d = Decision{Apply: false, Err: rotatingInjectedErr()}
 		}
 		if match(c) {
 			d.Gate = hold
